@@ -212,38 +212,39 @@ def spanOf (raw : List Nat) (b f : Int) : Option Nat :=
       let mn := xs.foldl (fun m d => if d < m then d else m) x0
       some (mx - mn)
 
-def autoLoop (c : Chan) (ndata : Int) (delay : Int) (npt : Int) (found : List Int) (acc : List Int)
-    (fuel : Nat) : Option (List Int) :=
-  match fuel with
-  | 0 => none     -- never reached: fuel is chosen ≥ the number of iterations
-  | fuel + 1 =>
-    if npt + c.nsamp - c.npre < ndata then
-      match found with
-      | nf :: rest =>
-        if npt + c.nsamp ≤ nf then
-          if c.ts.autoVeto > 0 then
-            match spanOf c.buf (npt - c.npre) (npt - c.npre + c.nsamp) with
-            | none => none
-            | some sp =>
-              if sp ≥ c.ts.autoVeto then autoLoop c ndata delay (npt + delay) (nf :: rest) acc fuel
-              else autoLoop c ndata delay (npt + delay) (nf :: rest) (acc ++ [npt]) fuel
-          else autoLoop c ndata delay (npt + delay) (nf :: rest) (acc ++ [npt]) fuel
-        else autoLoop c ndata delay (nf + delay) rest acc fuel
-      | [] =>
+/-- the auto loop.  Terminates because every iteration either consumes a found trigger or advances
+`npt` by `delay > 0` towards the loop bound (the Go loop has the same structure). -/
+def autoLoop (c : Chan) (ndata : Int) (delay : Int) (hd : 0 < delay) (npt : Int) (found : List Int)
+    (acc : List Int) : Option (List Int) :=
+  if npt + c.nsamp - c.npre < ndata then
+    match found with
+    | nf :: rest =>
+      if npt + c.nsamp ≤ nf then
         if c.ts.autoVeto > 0 then
           match spanOf c.buf (npt - c.npre) (npt - c.npre + c.nsamp) with
           | none => none
           | some sp =>
-            if sp ≥ c.ts.autoVeto then autoLoop c ndata delay (npt + delay) [] acc fuel
-            else autoLoop c ndata delay (npt + delay) [] (acc ++ [npt]) fuel
-        else autoLoop c ndata delay (npt + delay) [] (acc ++ [npt]) fuel
-    else some acc
+            if sp ≥ c.ts.autoVeto then autoLoop c ndata delay hd (npt + delay) (nf :: rest) acc
+            else autoLoop c ndata delay hd (npt + delay) (nf :: rest) (acc ++ [npt])
+        else autoLoop c ndata delay hd (npt + delay) (nf :: rest) (acc ++ [npt])
+      else autoLoop c ndata delay hd (nf + delay) rest acc
+    | [] =>
+      if c.ts.autoVeto > 0 then
+        match spanOf c.buf (npt - c.npre) (npt - c.npre + c.nsamp) with
+        | none => none
+        | some sp =>
+          if sp ≥ c.ts.autoVeto then autoLoop c ndata delay hd (npt + delay) [] acc
+          else autoLoop c ndata delay hd (npt + delay) [] (acc ++ [npt])
+      else autoLoop c ndata delay hd (npt + delay) [] (acc ++ [npt])
+  else some acc
+termination_by (found.length, (ndata + c.npre - c.nsamp - npt).toNat)
+decreasing_by all_goals simp_wf; all_goals omega
 
 def autoPass (c : Chan) (found : List Int) : Option (List Int) :=
   if !c.ts.auto then some found else
   let delay := if c.ts.autoDelay < c.nsamp then c.nsamp else c.ts.autoDelay
-  if delay ≤ 0 then none else   -- the Go loop would not terminate (never with nsamp ≥ 1)
-  match autoLoop c c.buf.length delay (fpta c) found [] (c.buf.length + found.length + 2) with
+  if hd : delay ≤ 0 then none else   -- the Go loop would not terminate (never with nsamp ≥ 1)
+  match autoLoop c c.buf.length delay (by omega) (fpta c) found [] with
   | some new => some (sortAsc (found ++ new))
   | none => none
 
